@@ -81,6 +81,8 @@ int Topo_Cart__rank(struct Topo_Cart* self, int* coords, int* rank)
     __CPROVER_ensures(!ALL4(CO_IN_RANGE) || *rank == HORNER(CO(0), CO(1), CO(2), CO(3)))
     /*@ rank_is_row_major_rank_of_on_grid_coords */
 #ifdef C33_WRAPPED_VALUE
+    /* also tried and undecided within 900 s on SAT: "the result is below nnodes" and the one-dimensional special case
+     * `NDIMS != 1 || *rank == MOD(coords[0], g_dims[0])` */
     /* UNDECIDED (not claimed): no back end (minisat, kissat, z3, cvc5, bitwuzla; unwound or with the loop invariant
      * below) decided this clause within 5 minutes: it needs facts about the 32-bit remainder circuit for 4 dimensions */
     __CPROVER_ensures(__CPROVER_return_value != OK_ ||
@@ -327,6 +329,34 @@ void harness(void)
 {
   setup();
   FOR_EACH_NDIMS(lemma());
+  VF_CANARY_POINT;
+}
+#endif
+#ifdef H_lemma_rank_wraps_low_dims
+/* the REAL body of rank (not its contract) on 1- and 2-dimensional topologies, coordinates in the property's domain
+ * [-2*dim, 3*dim): the rank is the row-major rank of the coordinates wrapped into [0, dims[i]) */
+static void lemma(int nd)
+{
+  __CPROVER_assume(WF_TOPO);
+  int c[ND], r;
+  for (int i = 0; i < ND; i++) {
+    c[i] = nondet_int();
+    __CPROVER_assume(-2 * MAXN <= c[i] && c[i] <= 3 * MAXN);
+  }
+  int rc = Topo_Cart__rank(&g_t, c, &r);
+  if (rc == OK_) {
+    if (nd == 1)
+      __CPROVER_assert(r == MOD(c[0], g_dims[0]), "lemma rank wraps the coordinate of a 1-d topology");
+    else
+      __CPROVER_assert(r == MOD(c[0], g_dims[0]) * g_dims[1] + MOD(c[1], g_dims[1]),
+                       "lemma rank wraps the coordinates of a 2-d topology");
+  }
+}
+void harness(void)
+{
+  setup();
+  if (nondet_int() == 1) { set_ndims(1); lemma(1); }
+  else { set_ndims(2); lemma(2); }
   VF_CANARY_POINT;
 }
 #endif
